@@ -402,6 +402,23 @@ pub fn check_with(case: &Case, tolerate_captured: bool) -> Verdict {
             return Err(viol!("bookmark-target-wrong", "bookmark {} pointed at page {:?}; after renumbering from {} it points at {:?}, the page is now {:?}", bid, old_page, start, newp, exp));
         }
     }
+    // (6) a second renumbering from the same start after identifiers were reserved (new_object_id): the numbers are
+    // already consecutive, nothing moves, and the maximum id must again equal the last one
+    {
+        let settled = doc.clone();
+        let reserve = 1 + case.start_raw % 3;
+        for _ in 0..reserve {
+            doc.new_object_id();
+        }
+        no_panic("renumber_objects_with (second time)", || doc.renumber_objects_with(start))?;
+        if doc.objects != settled.objects {
+            return Err(viol!("reachable-object-altered", "renumbering from {} a second time (numbers already consecutive) changed the objects", start));
+        }
+        if n > 0 && doc.max_id != start + n - 1 {
+            return Err(viol!("max-id-wrong", "max_id is {} after reserving {} identifiers and renumbering {} consecutive objects from {} again (expected {})", doc.max_id, reserve, n, start, start + n - 1));
+        }
+        doc = settled;
+    }
     let sorted = pages.windows(2).all(|w| w[0] < w[1]);
     rep.label_if(!sorted, "page-ids-out-of-page-order");
     rep.label_if(start != 1, "start!=1");
